@@ -422,11 +422,9 @@ def decItem (c : Cfg) : Item → Bytes → DState → Dec (DState × Bytes)
       | some sz => withSpan fun sp =>
         if sp.length < sz then .err .length
         else
-          match (if ideal then none else pad) with
-          | none => (decWhile el (sz + 1) (sp.take sz)).bind fun vs => .ok (vs, sp.drop sz)
-          -- H6: with padding the emitted code shadows `head`: elements are parsed from
-          -- what *follows* the array inside the padded span
-          | some _ => (decWhile el ((sp.drop sz).length + 1) (sp.drop sz)).bind fun vs => .ok (vs, [])
+          -- (before the `fix:` commit "parse padded, size-delimited arrays … from the array
+          -- octets" the padded case parsed the elements from what follows the array)
+          (decWhile el (sz + 1) (sp.take sz)).bind fun vs => .ok (vs, sp.drop sz)
     | .unknown, .static n => withSpan fun sp =>
         (decRepeat el n sp).bind fun (vs, r) => (unwrapArr n vs).bind fun vs => .ok (vs, r)
     | .unknown, .countField =>
